@@ -20,6 +20,7 @@ package cache
 //@   modifies m.sharedCaches
 //@   safety -overflow
 //@   ensures unheld(m.mu)
+//@   loop 1 invariant fresh(caches)
 //@   loop 2 invariant rangeindex >= -1
 
 //@ func (*Manager).Release
@@ -56,8 +57,15 @@ package cache
 
 // Transaction invariant: every cache recorded as written is write-locked by this transaction,
 // and two names never share a cache element.
+//@ func (*Manager).NewTransaction
+//@   property C11
+//@   pure
+//@   ensures result != nil && fresh(result) && result.manager == m && unheld(result.mu) && result.failed.v == 0
+//@   ensures result.writtenCaches != nil && fresh(result.writtenCaches) && forallv(k string, !contains(result.writtenCaches, k))
+
 //@ func (*Transaction).Commit
 //@   property C11
+//@   modifies t.manager.sharedCaches, field(sharedCacheElem.scrapped), locks(sharedCacheElem.mu)
 //@   requires t.manager != nil && unheld(t.mu) && unheld(t.manager.mu) && t.writtenCaches != t.manager.sharedCaches
 //@   requires forallv(k string, contains(t.writtenCaches, k) ==> t.writtenCaches[k] != nil && heldW(t.writtenCaches[k].mu))
 //@   requires forallv(a string, forallv(b string, contains(t.writtenCaches, a) && contains(t.writtenCaches, b) && a != b ==> t.writtenCaches[a] != t.writtenCaches[b]))
